@@ -165,7 +165,8 @@ def db_getattr(I, obj, cls_attr_owner, name, a):
             obj.fields[name] = []
             return obj.fields[name]
         return None
-    kind = column_kind(name)
+    kind = obj.meta.get('column_kinds', {}).get(name) or \
+        (getattr(getattr(I, 'top_contract', None), 'column_kinds', None) or {}).get(name) or column_kind(name)
     if kind is None:
         raise OutOfFragment("stored-object attribute %s.%s has no column model" % (obj.cls.__name__, name))
     from .modular import make_symbolic
@@ -175,6 +176,15 @@ def db_getattr(I, obj, cls_attr_owner, name, a):
         v = make_symbolic(I, kind, "%s.%s" % (obj.label or 'mo', name))
     obj.fields[name] = v
     obj.meta.setdefault('initial_columns', {})[name] = v
+    if isinstance(v, list):
+        obj.meta.setdefault('initial_list_content', {})[name] = list(v)
+        for x in v:
+            if isinstance(x, Obj):
+                # rows of a relationship collection: stored with (and through) their owner
+                x.meta['db'] = True
+                x.meta['attached'] = obj.meta.get('attached')
+                x.meta['owner'] = (obj, name)
+                x.meta['initial_fields'] = dict(x.fields)
     return v
 
 
